@@ -399,19 +399,21 @@ func (vfs *MemFS) Lstat(path string) (fs.FileInfo, error) {
 		op = "CreateFile"
 	}
 
-	_, child, _, err := vfs.searchNode(path, vfs.lstatMode(path))
-	if err != vfs.err.FileExists || child == nil {
-		return nil, &fs.PathError{Op: op, Path: path, Err: err}
-	}
+	for {
+		_, child, _, err := vfs.searchNode(path, vfs.lstatMode(path))
+		if err != vfs.err.FileExists || child == nil {
+			return nil, &fs.PathError{Op: op, Path: path, Err: err}
+		}
 
-	// the name is the last element of the path as it was given ("." for ".", the separator for a root directory).
-	fst := child.fillStatFrom(vfs.Base(path))
-	if fst.nlink == 0 && fst.mode.IsRegular() {
-		// the file has been removed since the search.
-		return nil, &fs.PathError{Op: op, Path: path, Err: vfs.err.NoSuchFile}
-	}
+		// the name is the last element of the path as it was given ("." for ".", the separator for a root directory).
+		fst := child.fillStatFrom(vfs.Base(path))
+		if fst.nlink == 0 && fst.mode.IsRegular() {
+			// the file has been removed or replaced since the search : the name now leads elsewhere, or nowhere.
+			continue
+		}
 
-	return fst, nil
+		return fst, nil
+	}
 }
 
 // Match reports whether name matches the shell file name pattern.
@@ -1140,19 +1142,21 @@ func (vfs *MemFS) Stat(path string) (fs.FileInfo, error) {
 		op = "CreateFile"
 	}
 
-	_, child, _, err := vfs.searchNode(path, slmStat)
-	if err != vfs.err.FileExists || child == nil {
-		return nil, &fs.PathError{Op: op, Path: path, Err: err}
-	}
+	for {
+		_, child, _, err := vfs.searchNode(path, slmStat)
+		if err != vfs.err.FileExists || child == nil {
+			return nil, &fs.PathError{Op: op, Path: path, Err: err}
+		}
 
-	// the name is the last element of the path as it was given ("." for ".", the separator for a root directory).
-	fst := child.fillStatFrom(vfs.Base(path))
-	if fst.nlink == 0 && fst.mode.IsRegular() {
-		// the file has been removed since the search.
-		return nil, &fs.PathError{Op: op, Path: path, Err: vfs.err.NoSuchFile}
-	}
+		// the name is the last element of the path as it was given ("." for ".", the separator for a root directory).
+		fst := child.fillStatFrom(vfs.Base(path))
+		if fst.nlink == 0 && fst.mode.IsRegular() {
+			// the file has been removed or replaced since the search : the name now leads elsewhere, or nowhere.
+			continue
+		}
 
-	return fst, nil
+		return fst, nil
+	}
 }
 
 // Sub returns an FS corresponding to the subtree rooted at dir.
